@@ -90,14 +90,16 @@ func deepCopy(v any) any {
 
 const (
 	hzSamePrecRight = "fmt-same-precedence-right-operand-loses-parens"
+	hzAssocRegroup  = "fmt-associative-right-operand-regrouped"
 	hzSignSign      = "fmt-compact-minus-minus"
-	hzStrEscape     = "fmt-string-escape-\\a-not-read-back"
+	hzStrEscape     = "fmt-string-escape-a-b-f-v-not-read-back"
 	hzLambdaOperand = "fmt-lambda-operand-loses-parens"
 	hzCallee        = "fmt-call-on-operator-expression-loses-parens"
 	hzMapKV         = "fmt-map-literal-key-or-value-loses-parens"
 	hzNumberDot     = "fmt-dot-on-number-literal-loses-parens"
 	hzOpenSlice     = "fmt-open-slice-end-printed-as-nil"
-	hzStmtSign      = "fmt-statement-starting-with-sign-joins-previous"
+	hzStmtSign      = "fmt-statement-starting-with-sign-joins-previous"         // normal mode
+	hzStmtSignC     = "fmt-compact-statement-starting-with-sign-joins-previous" // compact mode
 	hzWordGlue      = "fmt-compact-adjacent-statements-glued"
 	hzBracketStart  = "fmt-compact-statement-starting-with-bracket-applies-to-previous"
 	hzCmtInExpr     = "fmt-comment-in-expression-position"
@@ -105,8 +107,10 @@ const (
 	hzElseIfCmt     = "fmt-compact-else-block-comment-and-if-becomes-else-if"
 )
 
-var hazardOrder = []string{hzSamePrecRight, hzSignSign, hzStrEscape, hzLambdaOperand, hzCallee, hzMapKV, hzNumberDot, hzOpenSlice,
-	hzStmtSign, hzWordGlue, hzBracketStart, hzCmtInExpr, hzCmtAfterLine, hzElseIfCmt}
+var hazardOrder = []string{hzSamePrecRight, hzAssocRegroup, hzSignSign, hzStrEscape, hzLambdaOperand, hzCallee, hzMapKV, hzNumberDot, hzOpenSlice,
+	hzStmtSign, hzStmtSignC, hzWordGlue, hzBracketStart, hzCmtInExpr, hzCmtAfterLine, hzElseIfCmt}
+
+var associativeOps = map[string]bool{"+": true, "*": true, "&&": true, "||": true, "&": true, "|": true, "^": true}
 
 func kindOf(n any) string {
 	if j, ok := n.(J); ok {
@@ -140,7 +144,7 @@ func leftmost(n J) J {
 	for {
 		var l J
 		switch n["k"] {
-		case "inf", "asg", "idx", "dot":
+		case "inf", "asg", "idx", "dot", "dotbad":
 			l, _ = n["l"].(J)
 			if l == nil || l["k"] == "none" {
 				return n
@@ -160,6 +164,21 @@ func leftmost(n J) J {
 	}
 }
 
+// replaceLeftmost returns n with its leftmost node (see leftmost) replaced by repl.
+func replaceLeftmost(n J, repl J) J {
+	if reflect.DeepEqual(leftmost(n), n) {
+		return repl
+	}
+	key := "l"
+	if n["k"] == "call" {
+		key = "f"
+	}
+	if c, ok := n[key].(J); ok {
+		n[key] = replaceLeftmost(c, repl)
+	}
+	return n
+}
+
 func firstSign(n J) string { // the sign character the printed text of n starts with, or ""
 	m := leftmost(n)
 	if m["k"] == "pre" {
@@ -169,6 +188,127 @@ func firstSign(n J) string { // the sign character the printed text of n starts 
 		}
 	}
 	return ""
+}
+
+// realFirst / realLast: first and last character of what the REAL printer writes for n in compact mode
+// (0 when unknown). Used for the statement-boundary hazards only.
+func realFirst(n J) byte {
+	m := leftmost(n)
+	switch m["k"] {
+	case "inf", "asg", "idx", "dot", "dotbad":
+		return '(' // its left operand is parenthesised
+	case "call":
+		return realFirst(m["f"].(J))
+	case "pre":
+		return m["op"].(string)[0]
+	case "post", "id":
+		return firstByte(m["n"])
+	case "bi":
+		return firstByte(m["n"])
+	case "int":
+		return firstByte(m["v"])
+	case "float":
+		return '0' // a digit or a dot: word-like
+	case "bool":
+		return 't'
+	case "str":
+		return '"'
+	case "arr":
+		return '['
+	case "map":
+		return '{'
+	case "if":
+		return 'i'
+	case "for", "mac":
+		return 'f'
+	case "fn":
+		if isLambda(m) {
+			if ps := m["ps"].([]any); len(ps) == 1 {
+				return firstByte(ps[0])
+			}
+			return '('
+		}
+		return 'f'
+	case "ret":
+		return 'r'
+	case "brk":
+		return 'b'
+	case "cnt":
+		return 'c'
+	case "cmt":
+		return '/'
+	}
+	return 0
+}
+
+func firstByte(v any) byte {
+	if s, ok := v.(string); ok && s != "" {
+		return s[0]
+	}
+	return 0
+}
+
+func lastByte(v any) byte {
+	if s, ok := v.(string); ok && s != "" {
+		return s[len(s)-1]
+	}
+	return 0
+}
+
+func realLast(n J) byte {
+	switch n["k"] {
+	case "inf", "asg":
+		r, _ := n["r"].(J)
+		if r == nil || r["k"] == "none" {
+			return 'l' // printed `nil`
+		}
+		if isInfixKind(r) && realPrec(r) < realPrec(n) {
+			return ')'
+		}
+		return realLast(r)
+	case "pre":
+		r, _ := n["r"].(J)
+		if r == nil {
+			return 0
+		}
+		if isInfixKind(r) || r["k"] == "pre" {
+			return ')'
+		}
+		return realLast(r)
+	case "post":
+		return lastByte(n["op"])
+	case "id", "dot":
+		return lastByte(n["n"])
+	case "int":
+		return lastByte(n["v"])
+	case "float":
+		return '0'
+	case "bool":
+		return 'e'
+	case "str":
+		return '"'
+	case "arr", "idx":
+		return ']'
+	case "map", "if", "for", "fn", "mac":
+		return '}'
+	case "call", "bi":
+		return ')'
+	case "ret":
+		e, _ := n["e"].(J)
+		if e == nil || e["k"] == "none" {
+			return 'n'
+		}
+		return realLast(e)
+	case "brk":
+		return 'k'
+	case "cnt":
+		return 'e'
+	case "dotbad":
+		if i, ok := n["i"].(J); ok {
+			return realLast(i)
+		}
+	}
+	return 0
 }
 
 func isLambda(n J) bool { return n["k"] == "fn" && n["lambda"] == true }
@@ -213,7 +353,12 @@ func (h *hazardCtx) walk(n J) J {
 			}
 		}
 		if r != nil && isInfixKind(r) && realPrec(r) == realPrec(n) {
-			if h.hit(hzSamePrecRight) {
+			// the same associative operator on both levels: the shipped test-suite pins the regrouping (1 + (2 + 3) -> 1 + 2 + 3)
+			id := hzSamePrecRight
+			if n["k"] == "inf" && r["k"] == "inf" && n["op"] == r["op"] && associativeOps[n["op"].(string)] {
+				id = hzAssocRegroup
+			}
+			if h.hit(id) {
 				n["r"] = deepCopy(neutralID)
 			}
 		}
@@ -221,14 +366,14 @@ func (h *hazardCtx) walk(n J) J {
 		if h.mode == "C" && n["k"] == "inf" && (n["op"] == "-" || n["op"] == "+") && r != nil && realPrec(r) >= realPrec(n) {
 			if s := firstSign(r); s != "" && s[0] == n["op"].(string)[0] {
 				if h.hit(hzSignSign) {
-					n["r"] = deepCopy(neutralID)
+					n["r"] = replaceLeftmost(r, deepCopy(neutralID).(J))
 				}
 			}
 		}
 		r, _ = n["r"].(J)
 		if r != nil && realPrec(n) > precLambda && isLambda(leftmost(r)) && !(isInfixKind(r) && realPrec(r) < realPrec(n)) {
 			if h.hit(hzLambdaOperand) {
-				n["r"] = deepCopy(neutralID)
+				n["r"] = replaceLeftmost(r, deepCopy(neutralID).(J))
 			}
 		}
 		for _, side := range []string{"l", "r"} {
@@ -244,7 +389,7 @@ func (h *hazardCtx) walk(n J) J {
 		r, _ := n["r"].(J)
 		if r != nil && isLambda(leftmost(r)) && !isInfixKind(r) {
 			if h.hit(hzLambdaOperand) {
-				n["r"] = deepCopy(neutralID)
+				n["r"] = replaceLeftmost(r, deepCopy(neutralID).(J))
 			}
 		}
 		if r != nil && r["k"] == "cmt" {
@@ -293,6 +438,12 @@ func (h *hazardCtx) walk(n J) J {
 	for k, c := range n {
 		switch x := c.(type) {
 		case J:
+			if x["k"] == "cmt" {
+				if h.hit(hzCmtInExpr) {
+					n[k] = deepCopy(neutralID)
+				}
+				continue
+			}
 			n[k] = h.walk(x)
 		case []any:
 			isStmts := stmtListKeys[k] && (n["k"] == "if" || n["k"] == "for" || n["k"] == "fn" || n["k"] == "mac" || n["k"] == "block")
@@ -322,7 +473,7 @@ func (h *hazardCtx) walk(n J) J {
 }
 
 func isWordByte(c byte) bool {
-	return c == '_' || c == '.' || c == '"' || ('0' <= c && c <= '9') || ('a' <= c && c <= 'z') || ('A' <= c && c <= 'Z') || c >= 0x80
+	return c == '_' || c == '.' || ('0' <= c && c <= '9') || ('a' <= c && c <= 'z') || ('A' <= c && c <= 'Z') || c >= 0x80
 }
 
 // walkStmts handles the hazards of statement boundaries, then the statements themselves.
@@ -347,17 +498,20 @@ func (h *hazardCtx) walkStmts(list []any) []any {
 		}
 		if prev != nil {
 			if sg := firstSign(st); sg != "" {
-				if h.hit(hzStmtSign) {
+				id := hzStmtSign
+				if h.mode == "C" {
+					id = hzStmtSignC
+				}
+				if h.hit(id) {
 					list[i] = deepCopy(neutralStmt)
 					st = list[i].(J)
 				}
 			}
 			if h.mode == "C" && prev["k"] != "cmt" {
-				pt, ct := h.fsText(prev), h.fsText(st)
-				if pt != "" && ct != "" {
-					last, first := pt[len(pt)-1], ct[0]
+				last, first := realLast(prev), realFirst(st)
+				if last != 0 && first != 0 {
 					spaced := st["k"] == "arr" || (isInfixKind(prev) && last != '}' && last != ']')
-					if !spaced && isWordByte(last) && isWordByte(first) && !(last == '"' && first == '"') {
+					if !spaced && isWordByte(last) && isWordByte(first) {
 						if h.hit(hzWordGlue) {
 							list[i] = deepCopy(neutralStmt)
 							st = list[i].(J)
@@ -437,7 +591,7 @@ func neutralise(tree []any, mode, keep string) []any {
 }
 
 // fmtAttribute decides the signatures of a record failing `law` of `prop` in `mode`.
-func fmtAttribute(rec *fmtRec, prop, mode, law string) (sigs []string, note string) {
+func fmtAttribute(rec *fmtRec, prop, mode, law string, individually bool) (sigs []string, note string) {
 	unexplained := "fmt-" + law + "-" + map[string]string{"N": "normal", "C": "compact"}[mode] + "-unexplained"
 	if rec.Panic != "" {
 		return []string{"fmt-panic:" + rec.PanicAt}, rec.Panic
